@@ -102,7 +102,9 @@ func checkCalls(tw *WTrace, steps []WStep) error {
 			if cl.Err != nil {
 				badFailed[cl.Step] = true
 			}
-			badWrote[cl.Step] += cl.WroteAfter - cl.WroteBefore
+			if !(cl.Msg >= 0 && tw.Sent[cl.Msg].OptionalEmpty) {
+				badWrote[cl.Step] += cl.WroteAfter - cl.WroteBefore
+			}
 			continue
 		}
 		if cl.Err != nil {
@@ -110,7 +112,7 @@ func checkCalls(tw *WTrace, steps []WStep) error {
 		}
 	}
 	for si, s := range steps {
-		isBad := s.Op == "bad" || (s.Op == "level" && (s.Level < -2 || s.Level > 9))
+		isBad := s.Op == "bad" || (s.Op == "level" && (s.Level < -2 || s.Level > 9)) || (s.Op == "json" && s.JSON == unencodableJSON)
 		if !isBad {
 			continue
 		}
@@ -129,6 +131,11 @@ func expectedMsgs(tw *WTrace) (data, ctl []Sent) {
 	for _, s := range tw.Sent {
 		if s.Bad {
 			continue
+		}
+		if s.OptionalEmpty {
+			if !s.OnWire {
+				continue
+			}
 		}
 		if s.Control {
 			ctl = append(ctl, s)
